@@ -5,3 +5,4 @@ import Model.Wire
 import Model.Codec
 import Model.Transcript
 import Model.Batch
+import Model.Ctors
